@@ -2,10 +2,11 @@ SPECIFICATION Spec
 CONSTANTS
   Deviations <- AllDevs
   InputMenu <- MenuQuick
-  MaxNodes = 3
+  MaxNodes = 2
   Vals <- ValsStd
   Rich = 1
-INVARIANT DevExplains
+  Chain = FALSE
+INVARIANT DesignSound
 INVARIANT ShapesSound
 INVARIANT Emit
 CHECK_DEADLOCK FALSE
